@@ -125,15 +125,21 @@ def rule_c_env(chk, progs):
                 elif nm in ("readdir", "readdir64", "scandir"):
                     # the set of names is input; only their order is host state.  Accepted iff C11's A3-source rule proves
                     # the order is erased (names copied out, sorted by a proven total order before anything observes them)
-                    from .c11 import rule_source, _Sub
+                    from .c11 import rule_source, rule_pipeline, _Sub
                     sub = _Sub(chk)
                     sub.broke = lambda *a: None
                     src, _n = rule_source(sub, prog)
                     st = src.get(f.unit.src)
-                    if st and st[0]:
+                    mine = [x for x in (st[3] if st else []) if x[2] is c]
+                    sub2 = _Sub(chk)
+                    sub2.broke = lambda *a: None
+                    rule_pipeline(sub2, prog, src)
+                    if mine and mine[0][0]:
                         chk.ok("K2-env", inst, c, "directory enumeration whose order is erased before use (A3-source of C11 holds here)")
+                    elif mine and not sub2.bad:
+                        chk.ok("K2-env", inst, c, "unsorted enumeration mode that is never combined with an order-sensitive stage (A3-pipeline of C11 holds)")
                     else:
-                        chk.violation("K2-env", inst, c, "the packer takes the host's directory enumeration order as it comes (C11 A3-source fails)")
+                        chk.violation("K2-env", inst, c, "the packer takes the host's directory enumeration order as it comes (C11 A3-source / A3-pipeline fail)")
                 else:
                     chk.violation("K2-env", inst, c, "the packer queries the environment with %s: the image would depend on time, "
                                   "locale, process or host state" % nm)
